@@ -1,3 +1,4 @@
+import Varint.Bridge.RLE
 import Varint.Lemmas.Adaptive
 import Varint.Bridge.Sizes
 import Varint.Lemmas.FloatDec
@@ -115,6 +116,23 @@ theorem c_rle_extent_le_max (xs : List Nat) (h : xs.length < 2 ^ 56) :
   rw [Varint.Bridge.Sizes.rleMaxSize_eq _ (by omega)]
   exact rle_extent_le_max xs
 
+
+/-- **on the machine translation of src/varintRLE.c (loops included, regenerated every run)**: the predictor
+    `varintRLESize` (= the encodedSize `varintRLEAnalyze` reports) is EXACTLY what `varintRLEEncode` returns, the
+    encoder stores only bytes 0 … size-1 of the destination (each once, in increasing order), and that size is within
+    the C's own `varintRLEMaxSize(count)`: a destination of exactly the predicted size is never overflowed.
+    For every array of 64-bit values below 2^56 elements and every fuel ≥ count + 2 (so: the loops terminate). -/
+theorem c_rle_encoder_within_predicted_size (xs : List Nat) (hx : ∀ x ∈ xs, x < 2 ^ 64) (hn : xs.length < 2 ^ 56)
+    (given : Bool) (fuel : Nat) (hf : xs.length + 2 ≤ fuel) :
+    ∃ n stores size m1 m2 m3 m4 b mc mr mu,
+      Varint.Gen.C.rleEncode fuel (Varint.Bridge.Tagged.bufOf xs) xs.length given = some (n, m1, m2, m3, m4, stores) ∧
+      Varint.Gen.C.rleAnalyze fuel (Varint.Bridge.Tagged.bufOf xs) xs.length = some (b, mc, mr, some size, mu) ∧
+      n = size ∧ stores.map Prod.fst = List.range' 0 size ∧ size ≤ Varint.Gen.C.rleMaxSize xs.length := by
+  refine ⟨_, _, RLE.size xs, _, _, _, _, _, _, _, _,
+    Varint.Bridge.RLE.rleEncode_eq xs hx (by omega) given fuel hf,
+    Varint.Bridge.RLE.rleAnalyze_eq xs hx (by omega) fuel (by omega), RLE.enc_length xs, ?_, ?_⟩
+  · rw [Varint.Bridge.storesFrom_fst, RLE.enc_length]
+  · rw [← RLE.enc_length]; exact (c_rle_extent_le_max xs hn).1
 
 /-- adaptive: whatever is selected (every outcome of the float comparisons) fits varintAdaptiveMaxSize(count) -/
 theorem adaptive_extent_le_max (φ : Adaptive.FloatPreds) (xs : List Nat) (hne : xs ≠ []) (hx : ∀ x ∈ xs, x < 2 ^ 64)
